@@ -57,6 +57,9 @@ fn programs(thorough: bool) -> Vec<(String, Vec<Stmt>)> {
     out.push(("seg-two".into(), vec![seg("a", hex(0x1000), None), seg("b", hex(0x2000), None), Stmt::Segment { name: string("a"), block: Some(body("la")) }, Stmt::Segment { name: string("b"), block: Some(body("lb")) }]));
     out.push(("seg-two-relocated".into(), vec![seg("a", hex(0x1000), None), seg("b", hex(0x2000), Some(hex(0x9000))), Stmt::Segment { name: string("a"), block: Some(body("la")) }, Stmt::Segment { name: string("b"), block: Some(body("lb")) }]));
     out.push(("seg-overlapping-targets".into(), vec![seg("a", hex(0x1000), None), seg("b", hex(0x3000), Some(hex(0x1000))), Stmt::Segment { name: string("a"), block: Some(body("la")) }, Stmt::Segment { name: string("b"), block: Some(body("lb")) }]));
+    // emission order differs from address order: the segment used first lies higher; the program counter moves back
+    out.push(("seg-two-descending".into(), vec![seg("a", hex(0x2000), None), seg("b", hex(0x1000), None), Stmt::Segment { name: string("a"), block: Some(body("la")) }, Stmt::Segment { name: string("b"), block: Some(body("lb")) }, Stmt::Segment { name: string("a"), block: Some(vec![nop()]) }]));
+    out.push(("pcset-back".into(), vec![Stmt::PcSet(hex(0x1100)), nop(), ins("lda", Form::Imm, num(1)), Stmt::PcSet(hex(0x1000)), imp("inx"), label("l"), ins("jmp", Form::Plain, id("l")), Stmt::PcSet(hex(0x1080)), imp("rts")]));
     out.push(("seg-interleaved".into(), vec![seg("a", hex(0x1000), None), seg("b", hex(0x2000), None), Stmt::Segment { name: string("a"), block: Some(vec![nop()]) }, Stmt::Segment { name: string("b"), block: Some(vec![imp("inx")]) }, Stmt::Segment { name: string("a"), block: Some(vec![imp("iny")]) }]));
     // one source line (the invocation) emitting into two segments; a loop whose iterations alternate segments
     for (tag, pb) in [("", None), ("-relocated", Some(hex(0x9000)))] {
@@ -173,6 +176,20 @@ fn import_cases() -> Vec<(String, Vec<String>, Vec<ImportSite>, Vec<String>)> {
         ("parameter", s(&["lda #v", ".if v == 1 {", "inx", "} else {", "iny", "dey", "}", "rts"])),
     ];
     let mut out = vec![];
+    // a macro that is defined in one file and invoked in the other (in listing mode its bytes belong to the invocation)
+    out.push((
+        "import-macro-defined-in-imported-file".to_string(),
+        // (`import *` of a file without name clashes = its text in place, without a scope of its own)
+        s(&["@I0", "om(3)", "nop", "om(4)", "rts"]),
+        vec![ImportSite { import_line: ".import * from \"o.asm\"".into(), open: vec![] }],
+        s(&[".macro om(q) {", "lda #q", "sta $d020", "}", "inx"]),
+    ));
+    out.push((
+        "import-macro-defined-in-main-file".to_string(),
+        s(&[".macro mm(q) {", "ldx #q", "}", "mm(1)", "@I0", "rts"]),
+        vec![ImportSite { import_line: ".import * as i0 from \"o.asm\"".into(), open: vec!["i0: {".into()] }],
+        s(&["mm(5)", "nop", "mm(6)"]),
+    ));
     for (bn, body) in &bodies {
         let uses_v = *bn == "parameter";
         let site = |k: usize, val: i64, ns: bool| -> ImportSite {
@@ -231,8 +248,10 @@ fn check_imports(ctx: &Ctx, bpl_list: &[usize]) {
                     twin.push(ol.clone());
                     origin.push(Some((1, i)));
                 }
-                twin.push("}".into());
-                origin.push(None);
+                if !site.open.is_empty() {
+                    twin.push("}".into());
+                    origin.push(None);
+                }
             } else {
                 origin.push(Some((0, main.len())));
                 main.push(l.clone());
@@ -471,6 +490,73 @@ fn check(ctx: &Ctx, isa: &Isa, name: &str, prog: &[Stmt], bpl_list: &[usize]) {
                 format!("{}: the {} bytes at target ${:04x} emitted by a {} statement have no source map entry attributed to it", name, c.bytes.len(), c.target, construct_of(s)),
                 case.clone(),
             ));
+        }
+        // ---- (1b) the two look-ups the debugger and the listing use: address -> entry, line -> entries
+        let distinct_targets = {
+            let mut ok = true;
+            for (i, a) in chunks.iter().enumerate() {
+                for b in chunks.iter().skip(i + 1) {
+                    if a.target < b.target + b.bytes.len() && b.target < a.target + a.bytes.len() {
+                        ok = false;
+                    }
+                }
+            }
+            ok
+        };
+        if distinct_targets {
+            'lookup: for c in &chunks {
+                let owner = if move_macro { c.invocation.unwrap_or(c.stmt) } else { c.stmt };
+                let (sb, se) = extent(id_of[&owner]);
+                for k in 0..c.bytes.len() {
+                    let a = c.target + k;
+                    let ok = match cg.source_map().address_to_offset(a) {
+                        Some(off) => {
+                            let sl = tree.code_map.look_up_span(off.span);
+                            sb <= (sl.begin.line, sl.begin.column) && (sl.end.line, sl.end.column) <= se
+                        }
+                        None => false,
+                    };
+                    if !ok {
+                        ctx.finding(Finding::new(
+                            format!("sourcemap:{}:{}:address-lookup", class_of(name), if move_macro { "invocation-mode" } else { "definition-mode" }),
+                            format!("{}: looking up address ${:04x} in the source map does not lead to the statement at {}:{} that emitted the byte there", name, a, sb.0 + 1, sb.1 + 1),
+                            case.clone(),
+                        ));
+                        break 'lookup;
+                    }
+                }
+            }
+        }
+        {
+            let n_lines = text.split('\n').count();
+            let all = cg.source_map().offsets();
+            let fname = all.first().map(|o| tree.code_map.look_up_span(o.span).file.name().to_string());
+            if let Some(fname) = fname {
+                for line in 0..n_lines {
+                    let mut want: Vec<(usize, usize)> = all
+                        .iter()
+                        .filter(|o| !o.pc.is_empty() && tree.code_map.look_up_span(o.span).begin.line == line)
+                        .map(|o| (o.pc.start, o.pc.end))
+                        .collect();
+                    let mut got: Vec<(usize, usize)> = cg
+                        .source_map()
+                        .line_col_to_offsets(&tree.code_map, &fname, line, None)
+                        .into_iter()
+                        .filter(|o| !o.pc.is_empty() && tree.code_map.look_up_span(o.span).begin.line == line)
+                        .map(|o| (o.pc.start, o.pc.end))
+                        .collect();
+                    want.sort();
+                    got.sort();
+                    if want != got {
+                        ctx.finding(Finding::new(
+                            format!("sourcemap:{}:line-lookup", class_of(name)),
+                            format!("{}: looking up line {} returns the target ranges {:x?}, the entries that begin on that line are {:x?}", name, line + 1, got, want),
+                            case.clone(),
+                        ));
+                        break;
+                    }
+                }
+            }
         }
         if !move_macro {
             continue;
